@@ -158,6 +158,12 @@ class Cpt(ImmittanceMixin):
 
         return pargs
 
+    def _arg_value(self, m):
+        """Return argument `m` with an engineering suffix (10k, 2m, ...)
+        converted to a number."""
+
+        return value_parser(self.args[m])
+
     @property
     def cpt(self):
         return self._cpt
@@ -335,8 +341,9 @@ class Cpt(ImmittanceMixin):
             elif arg is None:
                 # An unspecified value stays unspecified.
                 pass
-            elif subs_dict is not None:
-                # Perform substitutions
+            elif subs_dict is not None and isinstance(value_parser(arg), str):
+                # Perform substitutions (a number, such as 10k, has
+                # nothing to substitute).
                 arg = str(expr(arg).subs(subs_dict))
             args.append(arg)
 
@@ -1304,9 +1311,9 @@ class VCVS(DependentSource):
             mna._B[n2, m] -= 1
             mna._C[m, n2] -= 1
 
-        Ad = ConstantDomainExpression(self.args[0]).sympy
+        Ad = ConstantDomainExpression(self._arg_value(0)).sympy
         if len(self.args) > 1:
-            Ac = ConstantDomainExpression(self.args[1]).sympy
+            Ac = ConstantDomainExpression(self._arg_value(1)).sympy
         else:
             Ac = 0
 
@@ -1462,7 +1469,7 @@ class CCCS(DependentSource):
 
         n1, n2 = mna._cpt_node_indexes(self)
         m = mna._branch_index(cname)
-        F = ConstantDomainExpression(self.args[1]).sympy
+        F = ConstantDomainExpression(self._arg_value(1)).sympy
 
         if n1 >= 0:
             mna._B[n1, m] += F
@@ -1489,7 +1496,7 @@ class VCCS(DependentSource):
 
     def _stamp(self, mna):
         n1, n2, n3, n4 = mna._cpt_node_indexes(self)
-        G = ConstantDomainExpression(self.args[0]).sympy
+        G = ConstantDomainExpression(self._arg_value(0)).sympy
 
         if n1 >= 0 and n3 >= 0:
             mna._G[n1, n3] -= G
@@ -1531,7 +1538,7 @@ class GY(Dummy):
         # V2 = -I1 Z2     V1 = I2 Z1
         # where V2 = V[n1] - V[n2] and V1 = V[n3] - V[n4]
 
-        Z1 = ConstantDomainExpression(self.args[0]).sympy
+        Z1 = ConstantDomainExpression(self._arg_value(0)).sympy
         Z2 = Z1
 
         if n1 >= 0:
@@ -1574,7 +1581,7 @@ class TVtriode(Dummy):
         # V2 = -I1 Z2     V1 = I2 Z1
         # where V2 = V[n1] - V[n2] and V1 = V[n3] - V[n4]
 
-        Z1 = ConstantDomainExpression(self.args[0]).expr
+        Z1 = ConstantDomainExpression(self._arg_value(0)).expr
         Z2 = Z1
 
         if n1 >= 0:
@@ -1611,7 +1618,7 @@ class CCVS(DependentSource):
 
         cname = self.args[0]
         m2 = mna._branch_index(cname)
-        H = ConstantDomainExpression(self.args[1]).sympy
+        H = ConstantDomainExpression(self._arg_value(1)).sympy
         mna._D[m1, m2] -= H
 
         ccpt = self.cct.elements[cname]
@@ -1891,8 +1898,8 @@ class RV(RC):
 
         n1, n2, n3 = mna._cpt_node_indexes(self)
 
-        R = expr(self.args[0]).sympy
-        a = expr(self.args[1]).sympy
+        R = expr(self._arg_value(0)).sympy
+        a = expr(self._arg_value(1)).sympy
 
         Y1 = 1 / (R * (1 - a))
         Y2 = 1 / (R * a)
@@ -2020,7 +2027,7 @@ class SW(TimeVarying):
 
         kind = self.__class__.__name__
 
-        active_time = expr(self.args[0])
+        active_time = expr(self._arg_value(0))
 
         if before:
             active = expr(t) > active_time
@@ -2353,7 +2360,7 @@ class TR(Dummy):
             mna._B[n2, m] += 1
             mna._C[m, n2] += 1
 
-        A = ConstantDomainExpression(self.args[0]).sympy
+        A = ConstantDomainExpression(self._arg_value(0)).sympy
 
         if n1 >= 0:
             mna._C[m, n1] -= A
